@@ -31,6 +31,7 @@ pub fn run(args: &Args, r: &mut Report) {
         "c11-request-wakes-waiting-machine",
         "c11-scheduled-operation-survives-handle-drop",
         "c11-check-runs-with-decided-options",
+        "c11-request-answered-despite-ready-timers",
     ]);
     let n = args.budget(40_000, 400_000);
     for i in 0..n {
@@ -305,6 +306,87 @@ pub fn run(args: &Args, r: &mut Report) {
                 _ => None }).take(50).collect::<Vec<_>>()}));
         }
         absorb(r, args, i, m, &run.w, case_desc(&case));
+    }
+    // a timer whose wait_until completes at once during the reboot wait (the ping time is always "reached"): the
+    // machine pings round after round, and a request made meanwhile must still be answered within a bounded
+    // number of rounds (each round the request is taken with probability >= 1/3 by the fair select)
+    let n3 = args.budget(120, 2_000);
+    for j in 0..n3 {
+        let i = 30_000_000 + j;
+        if args.skip(i) {
+            continue;
+        }
+        let mut rng = Rng::derive(args.seed, args.shard, 113, j);
+        let cfg = HistCfg { start_mode: true, cup: false, n_apps: 1 + rng.usize(2), paths: vec![Path::Install], cohorts: false, deliveries: false, random_params: false, throttles: false };
+        let mut case = gen_history(&mut rng, &cfg);
+        for c in case.script.checks.iter_mut() {
+            for x in c.results.iter_mut() {
+                *x = InstRes::Installed;
+            }
+            c.reboot_needed = true;
+            c.reboot_fails = false;
+            c.reboot_allowed = vec![false; 400];
+        }
+        case.script.pings = (0..400).map(|_| RespSpec::ack()).collect();
+        case.max_steps = 20_000;
+        let w = make_world(&case);
+        let mut d = Driver::new(&w, &case.setup);
+        d.max_steps = case.max_steps;
+        // run into the reboot wait
+        let mut guard_rounds = 0;
+        while d.count_state(&StateSnap::WaitingForReboot) == 0 && guard_rounds < 200 {
+            d.settle();
+            let gates = d.pending_gates();
+            if gates.is_empty() || d.ended || d.panicked.is_some() {
+                break;
+            }
+            d.release(gates[0]);
+            guard_rounds += 1;
+        }
+        d.settle();
+        if d.count_state(&StateSnap::WaitingForReboot) == 0 || d.panicked.is_some() {
+            r.count("ready-timers-case-did-not-reach-reboot-wait", 1);
+            continue;
+        }
+        lock(&w).script.until_timers_ready = true;
+        // let the first ping round start (its ping timer is still a gate), then ask
+        let od = rng.bool();
+        let mut asked: Option<usize> = None;
+        let mut rounds = 0u32;
+        let mut answered_after: Option<u32> = None;
+        while rounds < 120 {
+            d.settle();
+            if d.ended || d.panicked.is_some() {
+                break;
+            }
+            if let Some(q) = asked {
+                if !d.pending_ctl().contains(&q) {
+                    answered_after = Some(rounds);
+                    break;
+                }
+            }
+            let gates = d.pending_gates();
+            // release only ping-timer / HTTP gates: the 30-minute re-ask timer never fires in this case
+            let pick = gates.iter().copied().find(|g| !matches!(d.gate_kind(*g), GateKind::Timer(TimerSpec::For(_))));
+            let Some(g) = pick else { break };
+            if asked.is_none() && rounds >= 2 {
+                asked = d.send_control(0, od);
+            }
+            d.release(g);
+            rounds += 1;
+        }
+        r.eval(crate::common::shape_of(&["ready-ping-timers", if od { "on-demand" } else { "scheduled" }]), true);
+        let mut m = Mon::default();
+        if asked.is_some() {
+            m.judge("c11-request-answered-despite-ready-timers", answered_after.is_some(), "", || {
+                format!("a request made during the reboot wait was still unanswered after {} ping rounds with an always-ready ping timer", rounds)
+            });
+        }
+        let run = finish_run(&case, w, d, RunEnd::Stopped);
+        if let Some(p) = &run.panicked {
+            report_panic(r, args, i, p, &run.w, case_desc(&case));
+        }
+        absorb(r, args, i, m, &run.w, json!({"ready_ping_timers": true, "answered_after_rounds": answered_after}));
     }
     // a machine that never started (invalid app set): requests resolve to Gone
     let n2 = args.budget(200, 4_000);
